@@ -156,6 +156,13 @@ class C08(EngineProp):
             L = rng.choice([1, 2, 3, 5])
             out.append({'role': 'client', 'profile': 'collector', 'kind': 'collector', 'L': L, 'k': rng.choice([L, 2 * L, 3 * L, L + 1, 1, 4]),
                         'end': rng.choice(['flag', 'flag', 'complete', 'error']), 'channel': rng.random() < 0.3})
+        # a responder that answers with one of the library's own stream sources (generator, async generator, Rx adapters), also one whose
+        # generator fails after its last element: what the sources make the endpoint emit is judged like everything else
+        from harness import sources as SRC
+        for i in range(40 if tier == 'quick' else 800):
+            count = rng.choice([1, 2, 4])
+            out.append({'role': 'server', 'profile': 'source', 'kind': 'source', 'src': SRC.KINDS[i % len(SRC.KINDS)], 'count': count, 'flagged': rng.random() < 0.6,
+                        'failing': rng.random() < 0.6, 'n0': rng.choice([1, count, count + 3, 2 ** 31 - 1]), 'more': rng.choice([0, 2, 5]), 'channel': rng.random() < 0.3})
         # reconnects: a new connection carries only streams it opened itself; what is left over from the previous connection (publishers of
         # its channels, its requesters) must have been shut down and must not emit frames with the old stream ids on the new connection
         for _ in range(60 if tier == 'quick' else 1500):
@@ -181,7 +188,44 @@ class C08(EngineProp):
         if case.get('kind') == 'collector':
             from harness import detloop
             return detloop.run(self._collector, case)
+        if case.get('kind') == 'source':
+            from harness import detloop
+            return detloop.run(self._source, case)
         return super().run_impl(case)
+
+    async def _source(self, loop, case):
+        from harness import sources, simnet
+        from harness.engine import frame_token, recv_token, build_frame
+        from rsocket.rsocket_server import RSocketServer
+        from rsocket.request_handler import BaseRequestHandler
+        flagged = case['flagged'] and case['src'] in ('gen', 'agen')
+        src = sources.make_source(case['src'], case['count'], flagged, case['failing'])
+
+        class H(BaseRequestHandler):
+            async def request_stream(self, payload):
+                return src
+
+            async def request_channel(self, payload):
+                return src, None
+        t = simnet.ScriptedTransport(loop)
+        server = RSocketServer(t, handler_factory=H)
+        await loop.settle()
+        steps = []
+
+        async def feed(spec):
+            n0 = len(t.sent)
+            t.deliver(build_frame(spec).serialize())
+            await loop.settle()
+            await loop.advance(20)
+            steps.append([recv_token(spec, 'k'), [frame_token(e[2]) for e in t.sent[n0:]]])
+        await feed({'ty': 'REQUEST_CHANNEL' if case['channel'] else 'REQUEST_STREAM', 'sid': 1, 'n': case['n0'], 'data': [9], 'complete': True})
+        if case['more']:
+            await feed({'ty': 'REQUEST_N', 'sid': 1, 'n': case['more']})
+        try:
+            await server.close()
+        except Exception:
+            pass
+        return {'steps': steps, 'final': {'table': [], 'cache': []}, 'script': [], 'extra': None, 'kinds': [], 'sids': []}
 
     async def _collector(self, loop, case):
         import asyncio
@@ -398,12 +442,12 @@ class C08(EngineProp):
         return {'steps': [['LEASE-SCENARIO', toks]], 'final': {'table': [], 'cache': []}, 'script': [], 'extra': None, 'kinds': [], 'sids': []}
 
     def model_lines(self, case, obs):
-        if case.get('kind') in ('lease', 'setup-order', 'reconnect', 'collector'):
+        if case.get('kind') in ('lease', 'setup-order', 'reconnect', 'collector', 'source'):
             return []
         return super().model_lines(case, obs)
 
     def compare(self, case, obs, answers):
-        if case.get('kind') in ('lease', 'setup-order', 'reconnect', 'collector'):
+        if case.get('kind') in ('lease', 'setup-order', 'reconnect', 'collector', 'source'):
             return None
         return super().compare(case, obs, answers)
 
@@ -415,7 +459,7 @@ class C08(EngineProp):
                 if len(case['kinds']) > 1:
                     yield dict(case, kinds=case['kinds'][:i] + case['kinds'][i + 1:], acts=case['acts'][:i] + case['acts'][i + 1:] + ['none'])
             return
-        if case.get('kind') == 'collector':
+        if case.get('kind') in ('collector', 'source'):
             return
         if case.get('kind') == 'reconnect':
             if case['rounds'] > 1:
@@ -432,7 +476,7 @@ class C08(EngineProp):
         if case.get('kind') == 'setup-order':
             import json
             return json.dumps(case['c16'], sort_keys=True)
-        if case.get('kind') in ('lease', 'reconnect', 'collector'):
+        if case.get('kind') in ('lease', 'reconnect', 'collector', 'source'):
             import json
             return json.dumps(case, sort_keys=True) if any(toks for _, toks in obs['steps']) else None
         return super().nontrivial(case, obs)
@@ -441,8 +485,8 @@ class C08(EngineProp):
         if case.get('kind') == 'setup-order':
             yield 'kind=setup-order'
             return
-        if case.get('kind') == 'collector':
-            yield 'kind=collector'
+        if case.get('kind') in ('collector', 'source'):
+            yield 'kind=' + case['kind']
             return
         if case.get('kind') == 'reconnect':
             yield 'kind=reconnect'
